@@ -545,7 +545,14 @@ func c01Reader(c *fw.Ctx) fw.Outcome {
 	// several renderings of the same model
 	for k := 0; k < 4; k++ {
 		o := srtGenRender(c.R)
+		mixed := c.R.P(1, 6)
+		if mixed {
+			o.eol = "\n"
+		}
 		doc := srtRenderDoc(model, o, c.R)
+		if mixed {
+			doc, o.eol = mixEOL(c.R, doc), "mixed"
+		}
 		key := fw.HashBytes(doc)
 		var got *astisub.Subtitles
 		var err error
